@@ -150,6 +150,23 @@ def trace_validate_random(rng, n_events, rep):
                     limits = {"depth": 64, "max_seq": 10000, "max_alloc": 1 << 20}
                     cmds.append({"op": "de", "id": len(cmds), "schema": {"nodes": nodes}, "bytes": b, "reader": rd, "limits": limits, "decimal_mode": dm})
                     metas.append((len(scope), b, limits, "dec_" + dm))
+    # the same decimals in a union of null and two other branches, read as Option<integer> (the expected branch is given to the target)
+    mscope = [scopes.un(scopes.prim("null"), P("bytes", lt="decimal", prec=29, scale=0), scopes.prim("string")),
+              scopes.un(scopes.prim("long"), F("D16m", 16, lt="decimal", prec=29, scale=0), scopes.prim("null")),
+              scopes.un(scopes.prim("null"), P("bytes", lt="big-decimal"), scopes.prim("boolean"), scopes.prim("double"))]
+    for t in mscope:
+        nodes = scopes.flatten(t)["nodes"]
+        scope.append({"sid": f"decm{len(scope)}", "nodes": nodes})
+        for x in bounds[:10]:
+            dv = {"t": "dec", "v": pyavro.be16(x), "s": 0}
+            v = {"t": "un", "b": 1, "x": dv}
+            b = pyavro.encode(nodes, 1, v)
+            for dm in ("u64", "i64", "u128", "i128"):
+                for rd in ({"kind": "slice"}, {"kind": "chunks", "sched": [2]}):
+                    limits = {"depth": 64, "max_seq": 10000, "max_alloc": 1 << 20}
+                    cmds.append({"op": "de", "id": len(cmds), "schema": {"nodes": nodes}, "bytes": b, "reader": rd, "limits": limits, "decimal_mode": dm,
+                                 "hints": "alt", "shape": v})
+                    metas.append((len(scope), b, limits, "dec_" + dm))
     obs = common.run_harness(cmds)
     events = []
     for (si, b, lim, hint), o in zip(metas, obs):
